@@ -119,6 +119,13 @@ var c18Templates = []string{
 	`(do (defmacro m-div (fn [a b] (list '/ a b))) (trace! :before) (m-div N 0))`,
 	`(do (defmacro m-nth (fn [v i] (quasiquote (nth (unquote v) (unquote i))))) (list (m-nth [1 2 3] 1) (m-nth [1 2] N)))`,
 	`(do (defmacro m-call (fn [f] (list f))) (m-call undefined-fn-N))`,
+	// metadata of functions bound with def; impure macros expanded several times at one call site
+	`(do (def idf (fn [x] x)) (list (meta idf) (meta (fn [y] y)) (idf N)))`,
+	`(do (def tagged (with-meta (fn [x] x) {:t N})) (def plain (fn [x] x)) (map (fn [g] (if (meta g) :tagged :plain)) (list plain tagged)))`,
+	`(do (def cnt (atom 0)) (defmacro m-count (fn [] (swap! cnt (fn [v] (+ v 1))))) (def call-it (fn [] (m-count))) (list (call-it) (call-it) (call-it) (deref cnt) N))`,
+	`(do (defmacro m-a (fn [x] (list '+ x 1))) (defmacro m-b (fn [x] (list '* x 2))) (def use (fn [m x] (eval (list m x)))) (list (use 'm-a N) (use 'm-b N) (use 'm-a 1)))`,
+	`(do (defmacro m-neg (fn [x] x)) (def f1 (fn [] (m-neg N))) (def r1 (f1)) (defmacro m-neg (fn [x] (list '- 0 x))) (list r1 (f1)))`,
+	`(do (defmacro m-one (fn [x] (list 'quote x))) (list (macroexpand (m-one (not-a-function N))) (m-one (also-not N))))`,
 	// forms with more than ten items
 	`(str 1 2 3 4 5 6 7 8 9 10 N 12)`,
 	`(do (trace! 1) (trace! 2) (trace! 3) (trace! 4) (trace! 5) (trace! 6) (trace! 7) (trace! 8) (trace! 9) (trace! 10) (trace! 11) N)`,
